@@ -148,7 +148,10 @@ func (cs *ChatState) UpdateFromMessage(timestamp *time.Time, lastSeenMessages *c
 }
 
 func (cs *ChatState) AccumulateAckCount(ackCount int) int {
-	delayedAckCount := cs.delayedAckCount.Add(int32(ackCount))
+	// Sum in 64 bits: the offset is client controlled and adding it to the held count in
+	// int32 would wrap for offsets near the int32 limit. Chat state updates are serialized
+	// by the chat queue, so load + store is fine here.
+	delayedAckCount := int64(cs.delayedAckCount.Load()) + int64(ackCount)
 	ackCountToForward := delayedAckCount - minimumDelayedAckCount
 	if ackCountToForward >= lastSeenMessagesWindowSize {
 		// Because we only forward acknowledgements above the window size, we don't have to shift the previous 'last seen' state
@@ -156,6 +159,7 @@ func (cs *ChatState) AccumulateAckCount(ackCount int) int {
 		cs.delayedAckCount.Store(minimumDelayedAckCount)
 		return int(ackCountToForward)
 	}
+	cs.delayedAckCount.Store(int32(delayedAckCount))
 	return 0
 }
 
